@@ -207,7 +207,7 @@ type State struct {
 
 	// last used AUTO_INCREMENT values
 	nextUserTag, nextDevice, nextAuth, nextTopic, nextTopicTag int
-	nextSub, nextMsg, nextDellog, nextCred, nextLink         int
+	nextSub, nextMsg, nextDellog, nextCred, nextLink           int
 }
 
 func newState() *State { return &State{} }
